@@ -40,8 +40,11 @@ CLAIMED['C11'] = dict(
           'save_checkpoint with a crash-and-freeze interposer on flax.io / os (torn writes included, both flax.io modes, int/float/negative/'
           'exponent step renderings, several prefixes); directory, latest_checkpoint, available_steps and restore_checkpoint are compared '
           'after every event. AsyncManager: every interleaving of caller and worker at flax.io granularity (deterministic scheduler, DFS) '
-          'must give the synchronous result predicted by the specification.'),
-    technique='TLA+ crash/recovery model + TLC; fault-injection replay of TLC histories on the real code; forced async schedules',
+          'must give the synchronous result predicted by the specification. Code -> spec: CheckpointTrace.tla (re-uses the actions of '
+          'Checkpoint.tla) validates, by TLC, every flax.io call of save_checkpoint recorded from the repository\'s own checkpoint tests and from '
+          'randomized save histories (readers included); a binding self-test (hook removed / field corrupted / calls reordered) runs every time.'),
+    technique='TLA+ crash/recovery model + TLC; fault-injection replay of TLC histories on the real code; forced async schedules; '
+              'TLC trace validation of recorded executions (repository tests, randomized driver)',
     design_ref='3/C11')
 
 _LINEN = ('LinenScope.tla: a state machine executing module programs one public call at a time (param / variable read+write / sow / '
